@@ -37,8 +37,11 @@ KFL_RULE = ("a coherence block - every comparison operator between a path (plain
 PROPS = {
     "C11": dict(
         proof_modules=["KsVerif.Proofs.C11"],
-        families=["stages.redis", "stages.amqp", "stages.http", "stages.dns", "stages.kafka"],
-        rule="stages.<proto>: the conversations of redis.conv, amqp.conv (every method, tables holding every field type, "
+        families=["stages.redis", "stages.amqp", "stages.http", "stages.dns", "stages.kafka",
+                  "stages.redismut", "stages.amqpmut", "stages.httpmut", "stages.kafkamut"],
+        rule="stages.<proto>mut: the same conversations with 1-3 byte-level mutations (a byte or a 16/32-bit field set to a "
+             "boundary value, a truncation) - every item the dissector still emits goes through the stages; "
+             "stages.<proto>: the conversations of redis.conv, amqp.conv (every method, tables holding every field type, "
              "contents) and http.conv (1-4 exchanges, bodies across 4096 / 8192, chunked / fixed / close-delimited; for stages.http also "
              "request targets without a path: absolute-form without one, authority-form CONNECT, OPTIONS *) are "
              "dissected by the real code; every emitted item is marshalled to JSON and back, analysed, the entry "
@@ -82,7 +85,7 @@ PROPS = {
         trusted_base=KFL_TB + LIB,
         assumptions=["participle (parser), regexp2 (macros), mxj (XML) are exercised, not modelled",
                      "goroutine stack exhaustion on very deep nests is a runtime limit outside the model"],
-        impl_timeout=600,
+        impl_timeout=300,
     ),
     "C14": dict(
         proof_modules=["KsVerif.Proofs.C14"],
@@ -117,7 +120,9 @@ PROPS = {
     "C17": dict(
         proof_modules=["KsVerif.Proofs.C17"],
         families=["kfl.macro"],
-        rule="kfl.macro: fixed corpus (names as prefix/infix/suffix of identifiers, inside literals, after dots, "
+        impl_timeout=150,
+        rule="kfl.macro: macro names inside terminated and unterminated literals followed by 5-200 more characters (the look-ahead "
+             "that skips literals must stay linear); fixed corpus (names as prefix/infix/suffix of identifiers, inside literals, after dots, "
              "unbalanced and escaped quotes), every macro name of the regenerated table in every one of 11x11 "
              "left/right contexts, seeded random concatenations of names, operators, literals and identifier pieces; "
              "each text is expanded 13 times (Go re-randomises the map order on every call), and the result expanded "
@@ -162,8 +167,10 @@ PROPS = {
     ),
     "C03": dict(
         proof_modules=["KsVerif.Proofs.C03"],
-        families=["http.conv"],
-        rule="http.conv: HTTP/1.0 and 1.1 conversations of 1-4 pipelined exchanges from an independent encoder (cross-checked "
+        families=["http.conv", "http.entry"],
+        rule="http.entry: what Analyze derives after the JSON round trips - path, query parameters (repeated keys, empty values, "
+             "keys without '=', percent-escapes, '+'), method, status - for fixed targets and the http.conv conversations; "
+             "http.conv: HTTP/1.0 and 1.1 conversations of 1-4 pipelined exchanges from an independent encoder (cross-checked "
              "byte for byte against the Lean spec encoder): six methods, origin- and absolute-form targets with repeated "
              "query keys and percent-encoding, 0-4 header fields incl. values with quotes / backslashes / 300 bytes, "
              "fixed-length, chunked (7-byte chunks) and close-delimited bodies of 0 bytes to above 8 KiB (across the "
@@ -245,8 +252,10 @@ PROPS = {
     ),
     "C08": dict(
         proof_modules=["KsVerif.Proofs.C08"],
-        families=["redis.split", "redis.convsplit", "amqp.split"],
-        rule="redis.split: the same byte streams as redis.raw delivered under every two-piece split (short streams, "
+        families=["redis.split", "redis.convsplit", "amqp.split", "kafka.split", "http.split"],
+        rule="kafka.split: the streams of kafka.conv / kafka.raw, every two-piece split of short halves, random pieces down to "
+             "single bytes, truncated halves; http.split: http.conv conversations in reads of 1 .. 4100 bytes; "
+             "redis.split: the same byte streams as redis.raw delivered under every two-piece split (short streams, "
              "exhaustive) and random multi-piece splits down to single bytes; the observation must equal the one the "
              "bytes alone determine; redis.convsplit adds random segmentations of well-formed conversations; "
              "non-trivial = at least two reads",
